@@ -45,13 +45,24 @@ def _rule(chk, rid, text, more=None):
     return chk.rule(rid, text if not more else "%s; %s" % (text, more))
 
 
+_STALE = "masm/arm64.rs (cfg(aarch64)) is not analysed on this host"
+_NOW = ("masm/arm64.rs (cfg(aarch64)) is analysed from a second fact set type-checked for aarch64-unknown-linux-gnu "
+        "(rules/a64.py); arm64 code is never executed")
+
+
 def _a64(F, r):
     """the aarch64 fact set, or None with an analysis failure recorded on r"""
     try:
-        return F.a64()
+        A = F.a64()
     except Exception as e:      # facts.AnalysisError: the tree does not type-check for aarch64
         r.anchor("aarch64 fact set (%s)" % str(e)[:160], False)
         return None
+    chk = r.check
+    chk.assumptions[:] = [a.replace(_STALE, _NOW) for a in chk.assumptions]
+    t = "nightly rustc name resolution/type check/MIR construction for --target aarch64-unknown-linux-gnu (-Zbuild-std)"
+    if t not in chk.trusted:
+        chk.trusted.append(t)
+    return A
 
 
 def layer_key(p):
@@ -81,15 +92,16 @@ def origin_adt(B, op, defs):
 
 # --------------------------------------------------------------------------- effect summaries
 EFFECTS = ("trap-kinds", "slow-paths", "runtime-functions", "write-barrier", "relocation-kinds",
-           "stack-map", "call-instruction", "position", "comment")
+           "stack-map", "call-instruction", "position", "comment", "emits-code")
 
 
 class Layer:
     """masm (arch-specific impl + arch-independent masm.rs) and asm.rs (BaselineAssembler) of one fact set, keyed by
     (layer, method name); closures are merged into their method"""
 
-    def __init__(self, S, arch, call_insns):
+    def __init__(self, S, arch, call_insns, emitting=()):
         self.arch = arch
+        self.emitting = set(emitting)
         self.crate = S.crate("dora_cannon_compiler")
         self.trap_ty = None
         dc = S.crate("dora_compiler")
@@ -102,9 +114,11 @@ class Layer:
             k = layer_key(p)
             if k is None:
                 continue
-            self.bodies.setdefault(k, []).append(cfg.Body(mb))
             if "{closure" not in p:
                 self.paths[k] = p
+                self.bodies.setdefault(k, []).insert(0, cfg.Body(mb))     # the method's own body first
+            else:
+                self.bodies.setdefault(k, []).append(cfg.Body(mb))
         self.call_insns = call_insns
         self.direct = {}
         self.edges = {}
@@ -160,6 +174,8 @@ class Layer:
                     d["comment"].add("recorded")
                 if nm in self.call_insns:
                     d["call-instruction"].add("emitted")
+                if nm in self.emitting:
+                    d["emits-code"].add("yes")
                 it = self.items.get(nm)
                 if it and ck is not None and self.trap_ty in it["inputs"]:
                     for i, ty in enumerate(it["inputs"]):
@@ -218,6 +234,14 @@ def x64_call_insns(F):
     return {X64 + n for n in asm_names(F, X64) if mnemonic(n) == "call"}
 
 
+def emitting_insns(S, prefix):
+    """assembler methods that (transitively) append bytes to the code buffer: callers of AssemblerBuffer::emit_*"""
+    from callgraph import CallGraph
+    cg = CallGraph(S, libs=["dora_asm"], bins=[])
+    seeds = [p for p in cg.bodies if re.search(r"AssemblerBuffer::emit_u\d+$", p)]
+    return {p for p in cg.callers_closure(seeds) if p.startswith(prefix)}
+
+
 _LAYERS = {}
 
 
@@ -225,7 +249,8 @@ def layers(F, A):
     key = (id(F), id(A))
     if key not in _LAYERS:
         _LAYERS.clear()
-        _LAYERS[key] = (Layer(F, "x64", x64_call_insns(F)), Layer(A, "arm64", a64_call_insns(A)))
+        _LAYERS[key] = (Layer(F, "x64", x64_call_insns(F), emitting_insns(F, X64)),
+                        Layer(A, "arm64", a64_call_insns(A), emitting_insns(A, A64)))
     return _LAYERS[key]
 
 
@@ -300,7 +325,7 @@ def run_c02(chk, F):
         return
     eff = ("trap-kinds", "slow-paths", "runtime-functions", "write-barrier", "relocation-kinds")
     LX, LA, n = parity(r, F, A, eff)
-    r.floor("non-empty (method, effect) pairs", n, 120)
+    r.floor("non-empty (method, effect) pairs", n, 90)
     for L in (LX, LA):
         sinks = L.sinks()
         r.floor("%s trap/bailout emitters (methods with a Trap parameter)" % L.arch, len(sinks), 4)
@@ -310,8 +335,9 @@ def run_c02(chk, F):
         tt = [k for k in sinks if "TrapTrampoline" in L.direct[k]["runtime-functions"]]
         r.anchor("%s: a Trap-taking method calls RuntimeFunction::TrapTrampoline" % L.arch, tt)
         for (k, callee, where) in L.untraceable:
-            if k in sinks or k == ("masm", "emit_bailouts"):
-                continue        # the deferred list is drained here; every push was seen at its own site
+            if k in sinks or not L.paths.get(k, "").startswith((MASM_A64, MASM_X64)):
+                continue        # arch-independent source is the same text in both builds (emit_bailouts drains the
+                #                 deferred list there; every push was seen at its own site)
             r.violation("%s::%s:%s:untraceable-trap-kind" % (k[0], k[1], callee),
                         "cannot trace the Trap argument of %s to a constant or a parameter (%s)" % (callee, L.arch),
                         where)
@@ -322,3 +348,1054 @@ def run_c02(chk, F):
                     L.arch, k[0], k[1], "/".join(sorted(lost))))
     rule_r9_arm64(chk, F, A)
     rule_div_width(chk, F, A)
+
+
+# --------------------------------------------------------------------------- instruction facts derived from dora_asm
+class A64Insns:
+    """what the names and bodies of dora_asm::arm64::AssemblerArm64 say about each instruction method"""
+
+    def __init__(self, A):
+        self.c = A.crate("dora_asm")
+        self.items = {f["path"]: f for f in self.c.items["fns"]}
+        self.names = set(asm_names(A, A64))
+        self._w = {}
+
+    def width(self, name, depth=0):
+        """operand width in bits of a data-processing / compare-and-branch form: the literal passed for the
+        encoder's `sf` parameter (1/true = 64, 0/false = 32), looked up through wrappers (cmp_ext → subs_ext → cls)"""
+        if name in self._w:
+            return self._w[name]
+        self._w[name] = None
+        b = self.c.hir.get(A64 + name)
+        out = None
+        if b is not None and depth < 6:
+            found = set()
+            inner = set()
+            for cs in hirq.calls(b["body"]):
+                it = self.items.get(cs.callee or "")
+                if not it:
+                    continue
+                ps = it.get("params") or []
+                if "sf" in ps:
+                    args = cs.all_args() if cs.is_method else list(cs.args)
+                    i = ps.index("sf")
+                    if i < len(args):
+                        a = hirq.strip(args[i])
+                        if hirq.is_node(a) and a[0] == "lit" and a[1] in ("int", "bool"):
+                            found.add(64 if a[2] in (1, True) else 32)
+                        else:
+                            found.add(None)
+                elif (cs.callee or "").startswith(A64) and last(cs.callee) in self.names:
+                    w = self.width(last(cs.callee), depth + 1)
+                    if w is not None:
+                        inner.add(w)
+            if len(found) == 1 and None not in found:
+                out = found.pop()
+            elif not found and len(inner) == 1:
+                out = inner.pop()
+        # cross-check with the naming convention X / X_w
+        if out is None:
+            if name.endswith("_w"):
+                out = 32
+            elif name + "_w" in self.names:
+                out = 64
+        self._w[name] = out
+        return out
+
+    # ---- memory instructions (names only; grammar of the A64 mnemonics, one line of reason each)
+    LSE_BASES = ("swp", "cas", "ldadd", "ldclr", "ldeor", "ldset", "ldsmax", "ldsmin", "ldumax", "ldumin")
+
+    def mem(self, name):
+        """→ None for non-memory instructions, else dict(kind, acq, rel, bits)"""
+        m = mnemonic(name)
+        bits = 64
+        if name.endswith("_w"):
+            bits = 32
+        core = m
+        for base in self.LSE_BASES:
+            if m.startswith(base):
+                rest = m[len(base):]
+                if rest and rest[-1] in "bh":        # byte / halfword forms carry the size as last letter
+                    bits = 8 if rest[-1] == "b" else 16
+                    rest = rest[:-1]
+                if rest in ("", "a", "l", "al"):    # LSE ordering suffixes: a = acquire, l = release
+                    return {"kind": "lse", "acq": "a" in rest, "rel": "l" in rest, "bits": bits, "base": base}
+        if not (m.startswith("ld") or m.startswith("st")):
+            return None
+        if core[-1] in "bh" and len(core) > 3:
+            bits = 8 if core[-1] == "b" else 16
+            core = core[:-1]
+        if core in ("ldxr", "ldaxr"):               # load-exclusive; the `a` form has acquire semantics
+            return {"kind": "ldx", "acq": core == "ldaxr", "rel": False, "bits": bits}
+        if core in ("stxr", "stlxr"):               # store-exclusive; the `l` form has release semantics
+            return {"kind": "stx", "acq": False, "rel": core == "stlxr", "bits": bits}
+        if core in ("ldar", "ldapr"):               # load-acquire
+            return {"kind": "ldar", "acq": True, "rel": False, "bits": bits}
+        if core == "stlr":                          # store-release
+            return {"kind": "stlr", "acq": False, "rel": True, "bits": bits}
+        if name.endswith("_s") or name.endswith("_d"):
+            bits = 32 if name.endswith("_s") else 64
+        return {"kind": "plain-load" if m.startswith("ld") else "plain-store", "acq": False, "rel": False, "bits": bits}
+
+
+# ARM condition codes as predicates over (N, Z, C, V) — architecture facts (Arm ARM C1.2.4), used to evaluate a
+# condition on the four possible results of a floating-point compare
+CONDS = {
+    "EQ": lambda n, z, c, v: z, "NE": lambda n, z, c, v: not z,
+    "CS": lambda n, z, c, v: c, "HS": lambda n, z, c, v: c, "CC": lambda n, z, c, v: not c, "LO": lambda n, z, c, v: not c,
+    "MI": lambda n, z, c, v: n, "PL": lambda n, z, c, v: not n, "VS": lambda n, z, c, v: v, "VC": lambda n, z, c, v: not v,
+    "HI": lambda n, z, c, v: c and not z, "LS": lambda n, z, c, v: (not c) or z,
+    "GE": lambda n, z, c, v: n == v, "LT": lambda n, z, c, v: n != v,
+    "GT": lambda n, z, c, v: (not z) and n == v, "LE": lambda n, z, c, v: z or n != v,
+}
+# FCMP result flags (Arm ARM, FCMP): less 1000, equal 0110, greater 0010, unordered 0011
+FCMP = {"less": (1, 0, 0, 0), "equal": (0, 1, 1, 0), "greater": (0, 0, 1, 0), "unordered": (0, 0, 1, 1)}
+SIGNED_LESS = {"LT"}
+UNSIGNED_LESS = {"LO", "CC"}
+SIGN_OF_DIFFERENCE = {"MI"}
+
+
+def mode_bits(S):
+    """MachineMode variant → size in bits, read off MachineMode::size()"""
+    dc = S.crate("dora_compiler")
+    b = dc.hir_fn("layout::MachineMode::size") or dc.hir_fn("MachineMode::size")
+    out = {}
+    if b is None:
+        return out
+    for n in hirq.walk(b["body"]):
+        if n[0] == "match":
+            for (pat, g, arm) in hirq.match_arms(n):
+                v = hirq.lit_int(arm)
+                for d in hirq.pat_paths(pat):
+                    if "MachineMode::" in d:
+                        # ptr_width() arms: pointer-sized = 8 bytes on both 64-bit targets
+                        out[last(d)] = (v * 8) if v is not None else 64
+    return out
+
+
+# Dora's ordered scalar types as the compare sees them: (value bits, signed).  One line of reason each.
+MODE_SIGNED = {"Int8": False}        # MachineMode::Int8 carries UInt8 only (Dora has no signed 8-bit type)
+DORA_TYPES = {"UInt8": (8, False),   # zero-extended byte
+              "Char": (21, False),   # Unicode scalar value ≤ 0x10FFFF
+              "Int32": (32, True), "Int64": (64, True)}
+
+
+def judge_int_less(cond, val_bits, signed, cmp_bits):
+    """→ None if `cond` taken after an integer compare of cmp_bits means 'lhs < rhs' for every pair of values of
+    the operand type, else a (tag, explanation)"""
+    narrower = val_bits < cmp_bits       # operands extended into a wider compare: the subtraction cannot overflow
+    if cond in SIGNED_LESS:
+        if signed or narrower:
+            return None
+        return ("signed-condition-for-unsigned", "a value with the top bit set compares as negative")
+    if cond in UNSIGNED_LESS:
+        if not signed:
+            return None
+        return ("unsigned-condition-for-signed", "a negative value compares as huge: (-1).cmp(1) yields Greater")
+    if cond in SIGN_OF_DIFFERENCE:
+        if narrower and not signed:
+            return None
+        return ("sign-of-difference", "MI tests the sign of lhs-rhs, which is the wrong way round whenever the "
+                "subtraction overflows: %s::min_value().cmp(1) yields Greater, %s::max_value().cmp(-1) yields Less"
+                % (("Int%d" % val_bits,) * 2))
+    return ("not-a-less-condition", "Cond::%s does not mean 'less' after a compare" % cond)
+
+
+def rule_r9_arm64(chk, F, A):
+    r = _rule(chk, "C02.R9", "three-way comparison (Ordering) lowering",
+              "arm64 (baseline masm::arm64 and boots codegen/arm64.dora): the early-out 'less' condition after an "
+              "integer cmp is in the class of the operand type (signed LT, unsigned LO; MI only when the operands are "
+              "narrower than the compare and zero-extended), and after fcmp is taken for 'less' only")
+    insns = A64Insns(A)
+    bits = mode_bits(A)
+    r.floor("MachineMode sizes read from MachineMode::size", len(bits), 5)
+    ca = A.crate("dora_cannon_compiler")
+    n_int = n_float = 0
+    x64_unordered_not_less = None
+    xf = F.crate("dora_cannon_compiler").hir.get(MASM_X64 + "float_cmp_ordering")
+    if xf is not None:
+        x64_unordered_not_less = any(n[0] == "def" and n[2].endswith("Condition::Parity") for n in hirq.walk(xf["body"]))
+    for fname in ("cmp_ordering", "float_cmp_ordering"):
+        b = ca.hir.get(MASM_A64 + fname)
+        if not r.anchor("arm64 MacroAssembler::%s" % fname, b):
+            continue
+        p = MASM_A64 + fname
+        ms = [n for n in hirq.walk(b["body"]) if n[0] == "match" and hirq.local_name(n[1]) == "mode"]
+        if not r.anchor("arm64 %s: match over the machine mode" % fname, ms):
+            continue
+        m = ms[0]
+        inside = set(id(x) for x in hirq.walk(m))
+        outer_bc = [cs for cs in hirq.calls(b["body"]) if cs.is_method and cs.callee == A64 + "bc"
+                    and id(cs.node) not in inside]
+        outer_cond = None
+        if outer_bc:
+            d = hirq.def_path(outer_bc[0].args[0])
+            if d and "::Cond::" in d:
+                outer_cond = last(d)
+        for (pat, g, arm) in hirq.match_arms(m):
+            modes = [last(d) for d in hirq.pat_paths(pat) if "MachineMode::" in d]
+            if not modes:
+                continue
+            cmps = [cs.name for cs in hirq.calls(arm) if cs.is_method and (cs.callee or "").startswith(A64)
+                    and mnemonic(cs.name) in ("cmp", "cmn", "subs", "fcmp", "fcmpe")]
+            conds = [last(x[2]) for x in hirq.walk(arm) if x[0] == "def" and "::arm64::Cond::" in x[2]]
+            cond = conds[-1] if conds else outer_cond
+            if not cmps:
+                continue
+            for mode in modes:
+                key = "%s:%s" % (p, mode)
+                if cond is None or cond not in CONDS:
+                    r.instance(key)
+                    r.violation(key + ":less-condition-not-found", "cannot find the condition of the early-out branch",
+                                "%s:%d" % (b["file"], b["line"]))
+                    continue
+                if mnemonic(cmps[0]).startswith("fcmp"):
+                    n_float += 1
+                    taken = {o: bool(CONDS[cond](*fl)) for o, fl in FCMP.items()}
+                    r.instance(key, sample={"fn": fname, "mode": mode, "compare": cmps[0], "less": cond, "taken": taken})
+                    for o in ("equal", "greater"):
+                        if taken[o] or not taken["less"]:
+                            r.violation("%s:%s-after-%s:not-less" % (key, cond, cmps[0]),
+                                        "Cond::%s after %s is %staken for 'less' and %staken for '%s'" % (
+                                            cond, cmps[0], "" if taken["less"] else "not ", "" if taken[o] else "not ",
+                                            o), b["file"])
+                    if taken["unordered"]:
+                        r.observe("%s: Cond::%s after %s is also taken for an unordered result (a NaN operand): "
+                                  "NaN.cmp(x) is Less on arm64%s" % (
+                                      key, cond, cmps[0], "; the x64 sibling branches on Condition::Parity and yields "
+                                      "Greater" if x64_unordered_not_less else ""))
+                    continue
+                n_int += 1
+                cb = insns.width(cmps[0])
+                vb = bits.get(mode)
+                signed = MODE_SIGNED.get(mode, True)
+                r.instance(key, sample={"fn": fname, "mode": mode, "compare": cmps[0], "compare_bits": cb,
+                                        "value_bits": vb, "signed": signed, "less": cond})
+                if cb is None or vb is None:
+                    r.violation(key + ":width-unknown", "cannot determine the width of %s / of MachineMode::%s" % (
+                        cmps[0], mode), b["file"])
+                    continue
+                if vb > cb:
+                    r.violation("%s:%s:compare-narrower-than-operands" % (key, cmps[0]),
+                                "%d-bit operands are compared with a %d-bit compare" % (vb, cb), b["file"])
+                    continue
+                j = judge_int_less(cond, vb, signed, cb)
+                if j:
+                    r.violation("%s:%s-after-%s:%s" % (key, cond, cmps[0], j[0]),
+                                "the baseline arm64 lowering of cmp for MachineMode::%s branches on Cond::%s after %s: "
+                                "%s" % (mode, cond, cmps[0], j[1]), "%s:%d" % (b["file"], b["line"]))
+    r.floor("arm64 baseline integer compare modes", n_int, 3)
+    r.floor("arm64 baseline float compare modes", n_float, 2)
+    # boots
+    D = F.dora()
+    f = "pkgs/boots/codegen/arm64.dora"
+    t = D.get(f)
+    nb = 0
+    if r.anchor(f, t):
+        fns = [x for x in doraq.functions(t, f) if x.name == "emit_compare_ordering" and x.body is not None]
+        if r.anchor("boots arm64 emit_compare_ordering", fns):
+            fn = fns[0]
+            ms = [n for n in doraq.walk(fn.body) if n[0] == "MATCH_EXPR"]
+            if r.anchor("boots arm64 emit_compare_ordering: match over the type", ms):
+                for (ptxt, pat, body) in doraq.direct_match_arms(ms[0]):
+                    tys = re.findall(r"Type::(\w+)", ptxt)
+                    cs = list(doraq.calls(body))
+                    cmps = [c.name for c in cs if c.callee.startswith("self.asm.") and mnemonic(c.name) in (
+                        "cmp", "cmn", "subs", "fcmp", "fcmpe")]
+                    bcs = [c for c in cs if c.callee == "self.asm.bc"]
+                    if not tys or not cmps:
+                        continue
+                    cond = (bcs[0].arg_text(0) or "").split("::")[-1] if bcs else None
+                    for ty in tys:
+                        key = "%s::%s:%s" % (f, fn.qual, ty)
+                        nb += 1
+                        r.instance(key, sample={"type": ty, "compare": cmps[0], "less": cond})
+                        if cond not in CONDS:
+                            r.violation(key + ":less-condition-not-found", "no bc(Cond::..) after the compare",
+                                        fn.where())
+                            continue
+                        if mnemonic(cmps[0]).startswith("fcmp"):
+                            taken = {o: bool(CONDS[cond](*fl)) for o, fl in FCMP.items()}
+                            if taken["equal"] or taken["greater"] or not taken["less"]:
+                                r.violation("%s:%s-after-%s:not-less" % (key, cond, cmps[0]),
+                                            "Cond::%s after %s does not select exactly 'less'" % (cond, cmps[0]),
+                                            fn.where())
+                            if taken["unordered"]:
+                                r.observe("%s: Cond::%s after %s is also taken for an unordered result (NaN)" % (
+                                    key, cond, cmps[0]))
+                            continue
+                        if ty not in DORA_TYPES:
+                            r.violation(key + ":unknown-operand-type", "no value range known for Type::%s" % ty,
+                                        fn.where())
+                            continue
+                        vb, signed = DORA_TYPES[ty]
+                        cb = insns.width(cmps[0])
+                        if cb is None:
+                            r.violation(key + ":width-unknown", "cannot determine the width of %s" % cmps[0], fn.where())
+                            continue
+                        if vb > cb:
+                            r.violation("%s:%s:compare-narrower-than-operands" % (key, cmps[0]),
+                                        "%d-bit operands are compared with a %d-bit compare" % (vb, cb), fn.where())
+                            continue
+                        j = judge_int_less(cond, vb, signed, cb)
+                        if j:
+                            r.violation("%s:%s-after-%s:%s" % (key, cond, cmps[0], j[0]),
+                                        "the optimizing compiler's arm64 lowering of cmp for %s branches on Cond::%s "
+                                        "after %s: %s" % (ty, cond, cmps[0], j[1]), fn.where())
+    r.floor("boots arm64 compare types", nb, 5)
+
+
+def rule_div_width(chk, F, A):
+    r = chk.rule("C02.R13", "arm64 baseline division/modulo: under each machine mode the instruction that branches to "
+                            "the DIV0 bailout tests the divisor at the width at which the divide instruction reads it")
+    LX, LA = layers(F, A)
+    insns = A64Insns(A)
+    ca = A.crate("dora_cannon_compiler")
+    n = 0
+    for k in sorted(LA.direct):
+        p = LA.paths.get(k, "")
+        if "DIV0" not in LA.direct[k]["trap-kinds"] or not p.startswith(MASM_A64):
+            continue
+        b = ca.hir.get(p)
+        if not r.anchor("HIR of %s" % p, b):
+            continue
+        labels = set()
+        for cs in hirq.calls(b["body"]):
+            if (cs.callee or "") and layer_key(cs.callee) and any(
+                    hirq.is_node(x) and x[0] == "def" and x[2].endswith("Trap::DIV0") for a in cs.args for x in hirq.walk(a)):
+                for a in cs.args:
+                    nm = hirq.local_name(a)
+                    if nm:
+                        labels.add(nm)
+        tests, divs = {}, {}
+        for m in hirq.walk(b["body"]):
+            if m[0] != "match" or hirq.local_name(m[1]) != "mode":
+                continue
+            for (pat, g, arm) in hirq.match_arms(m):
+                modes = [last(d) for d in hirq.pat_paths(pat) if "MachineMode::" in d]
+                for cs in hirq.calls(arm):
+                    if not (cs.is_method and (cs.callee or "").startswith(A64)):
+                        continue
+                    if any(hirq.local_name(a) in labels for a in cs.args):
+                        for mo in modes:
+                            tests.setdefault(mo, set()).add(cs.name)
+                    if mnemonic(cs.name) in ("sdiv", "udiv"):
+                        for mo in modes:
+                            divs.setdefault(mo, set()).add(cs.name)
+        if not r.anchor("%s: zero test and divide found per mode" % p, tests and divs):
+            continue
+        for mo in sorted(set(tests) | set(divs)):
+            tw = {insns.width(t) for t in tests.get(mo, ())}
+            dw = {insns.width(d) for d in divs.get(mo, ())}
+            n += 1
+            key = "%s:%s" % (p, mo)
+            r.instance(key, sample={"fn": p, "mode": mo, "zero_test": sorted(tests.get(mo, ())), "test_bits": sorted(
+                x or 0 for x in tw), "divide": sorted(divs.get(mo, ())), "divide_bits": sorted(x or 0 for x in dw)})
+            if not tw or not dw or None in tw or None in dw:
+                r.violation(key + ":zero-test-or-divide-not-recognised",
+                            "cannot pair the DIV0 guard with the divide instruction under MachineMode::%s" % mo, b["file"])
+                continue
+            if tw != dw:
+                t0 = sorted(tests[mo])[0]
+                d0 = sorted(divs[mo])[0]
+                if min(tw) >= max(dw):
+                    # wider guard: harmless as long as 32-bit values are zero-extended in their registers, which every
+                    # write to a W register guarantees architecturally — recorded, not a violation
+                    r.observe("%s: the DIV0 guard `%s` tests %s bits but `%s` divides by %s bits (correct only "
+                              "because 32-bit values are kept zero-extended)" % (
+                                  key, t0, "/".join(map(str, sorted(tw))), d0, "/".join(map(str, sorted(dw)))))
+                    continue
+                r.violation("%s:%s-guards-%s:zero-test-narrower-than-divide" % (key, t0, d0),
+                            "under MachineMode::%s the DIV0 guard `%s` tests %s bits of the divisor but `%s` divides by "
+                            "%s bits: a divisor whose low 32 bits are zero (1 / 4294967296) traps with 'division by "
+                            "zero' although it is not zero" % (
+                                mo, t0, "/".join(map(str, sorted(tw))), d0, "/".join(map(str, sorted(dw)))),
+                            "%s:%d" % (b["file"], b["line"]))
+    r.floor("arm64 (division routine, mode) pairs", n, 4)
+
+
+# --------------------------------------------------------------------------- operand descriptors (MIR)
+_LOOK_THROUGH = ("into", "from", "deref", "deref_mut", "reg", "clone", "borrow", "as_ref")
+
+
+def desc(B, op, defs, depth=0):
+    """symbolic description of an operand: ('named', CONST) | ('int', v) | ('param', i) | ('variant', path, name) |
+    ('call', callee, (arg descs), dest local) | ('?', ..); conversions (Into/From/Deref/ScratchReg::reg) are looked through"""
+    o = cfg.origin(B, op, defs)
+    if o[0] == "const":
+        k = o[1]
+        if "const" in k:
+            return ("named", last(k["const"]))
+        if "v" in k:
+            return ("int", k["v"])
+        return ("const", k.get("ty"))
+    if o[0] == "param":
+        return ("param", o[1])
+    if o[0] == "agg" and isinstance(o[1], list) and o[1] and o[1][0] == "adt" and len(o[1]) >= 3:
+        return ("variant", o[1][1], o[1][2])
+    if o[0] == "call":
+        c = o[1]
+        nm = cfg.callee_name(cfg.callee_of(c["f"])) or ""
+        if last(nm) in _LOOK_THROUGH and c["a"] and depth < 8:
+            return desc(B, c["a"][0], defs, depth + 1)
+        if depth < 4:
+            return ("call", nm, tuple(desc(B, a, defs, depth + 1) for a in c["a"]), c["d"][0])
+        return ("call", nm, (), c["d"][0])
+    return ("?",) + tuple(str(x) for x in o[:2])
+
+
+def mentions(d, pred):
+    if pred(d):
+        return True
+    if isinstance(d, tuple):
+        return any(mentions(x, pred) for x in d if isinstance(x, tuple))
+    return False
+
+
+def is_named(name):
+    return lambda d: isinstance(d, tuple) and len(d) == 2 and d[0] == "named" and d[1] == name
+
+
+def calls_fn(suffix):
+    return lambda d: isinstance(d, tuple) and d and d[0] == "call" and d[1].endswith(suffix)
+
+
+def asm_calls(B):
+    """[(Call, insn name)] for the dora_asm::arm64 instruction calls of a body, in block order"""
+    return [(x, x.name[len(A64):]) for x in B.calls if (x.name or "").startswith(A64)]
+
+
+def slow_path_for(LA, masm_method, label_param_index=1):
+    """(caller key, variant, same_label) for asm-layer callers of masm::<method>: the SlowPathKind they push and whether
+    its first operand is the very label handed to the masm method"""
+    out = []
+    for k, es in sorted(LA.edges.items()):
+        if k[0] != "asm" or ("masm", masm_method) not in es:
+            continue
+        for B in LA.bodies[k]:
+            defs = cfg.simple_defs(B)
+            lbls = [desc(B, x.args[label_param_index], defs) for x in B.calls
+                    if layer_key(x.name or "") == ("masm", masm_method) and len(x.args) > label_param_index]
+            for blk in B.blocks:
+                for s in blk["s"]:
+                    if s[0] == "a":
+                        a = agg_adt(s[2])
+                        if a and a[0].endswith("::SlowPathKind"):
+                            first = desc(B, s[2][2][0], defs) if s[2][2] else None
+                            out.append((k, a[1], first in lbls and first is not None and first[0] == "call"))
+    return out
+
+
+def field_size(S, crate, adt, field):
+    a = S.crate(crate).adt(adt)
+    if not a:
+        return None
+    for f in a["variants"][0]["fields"]:
+        if f["name"] == field:
+            return f.get("size")
+    return None
+
+
+# --------------------------------------------------------------------------- C04.R7 on arm64
+def run_c04(chk, F):
+    r = _rule(chk, "C04.R7", "the compiled safepoint poll compares the thread's state byte with Running",
+              "arm64: masm::arm64 safepoint loads the byte at ThreadLocalData::state_offset() off REG_THREAD and "
+              "branches to the slow-path label when it is not ThreadState::Running; the caller queues the safepoint "
+              "slow path for that label; function entry and loop back-edges reach the poll in the aarch64 build")
+    A = _a64(F, r)
+    if A is None:
+        return
+    insns = A64Insns(A)
+    ca = A.crate("dora_cannon_compiler")
+    p = MASM_A64 + "safepoint"
+    mb = ca.mir.get(p)
+    if not r.anchor("arm64 MacroAssembler::safepoint", mb):
+        return
+    B = cfg.Body(mb)
+    defs = cfg.simple_defs(B)
+    ts = A.crate("dora_compiler").adt("abi::ThreadState")
+    running = {v["name"]: v["discr"] for v in ts["variants"]}.get("Running") if ts else None
+    r.anchor("ThreadState::Running discriminant", running is not None)
+    state_size = field_size(A, "dora_runtime", "threads::ThreadLocalData", "state")
+    r.anchor("ThreadLocalData.state size", state_size)
+    ac = asm_calls(B)
+    loads = []
+    for (x, nm) in ac:
+        m = insns.mem(nm)
+        if m and m["kind"].endswith("load") or (m and m["kind"] in ("ldar",)):
+            ds = [desc(B, a, defs) for a in x.args[1:]]
+            loads.append((x, nm, m, ds))
+    st = [l for l in loads if any(mentions(d, calls_fn("ThreadLocalData::state_offset")) for d in l[3])]
+    r.instance(p + ":loads-state", sample={"loads": [l[1] for l in loads], "of_state_offset": [l[1] for l in st],
+                                           "Running": running, "state_bytes": state_size})
+    if not st:
+        r.violation(p + ":not-state-offset",
+                    "the arm64 poll does not load from ThreadLocalData::state_offset(): it tests some other word of "
+                    "the thread-local block, so a requested safepoint is never (or always) seen", B.file)
+        return
+    x, nm, m, ds = st[0]
+    if not any(mentions(d, is_named("REG_THREAD")) for d in ds):
+        r.violation(p + ":not-thread-register", "the state byte is not addressed off REG_THREAD", x.where())
+    r.instance(p + ":byte-load")
+    if state_size is not None and m["bits"] != state_size * 8:
+        r.violation(p + ":%s:not-byte-load" % nm,
+                    "`%s` loads %d bits but ThreadLocalData::state is %d byte(s): the neighbouring bytes of the "
+                    "thread-local block are read as part of the state, so the poll takes the slow path although the "
+                    "thread is Running (or never)" % (nm, m["bits"], state_size), x.where())
+    dest = ds[0] if ds else None
+    # the branch to the slow-path label (parameter 2 of safepoint(self, lbl))
+    brs = [(y, n2, [desc(B, a, defs) for a in y.args[1:]]) for (y, n2) in ac]
+    brs = [(y, n2, d2) for (y, n2, d2) in brs if ("param", 2) in d2]
+    r.instance(p + ":branch-to-slow-path", sample={"branches": [b[1] for b in brs]})
+    ok = False
+    why = "no branch to the slow-path label"
+    for (y, n2, d2) in brs:
+        mn = mnemonic(n2)
+        if mn == "cbnz" and running == 0:
+            if d2[0] == dest and B.dominates(x.block, y.block) and B.postdominates(y.block, 0):
+                ok = True
+            else:
+                why = "cbnz does not test the register the state byte was loaded into, or can be skipped"
+        elif mn == "cbz":
+            why = "`%s` branches to the slow path when the state IS Running (0) and falls through otherwise" % n2
+        elif mn == "bc":
+            cmps = [(z, n3, [desc(B, a, defs) for a in z.args[1:]]) for (z, n3) in ac if mnemonic(n3) == "cmp"
+                    and B.dominates(z.block, y.block) and B.dominates(x.block, z.block)]
+            cond = [d for d in d2 if d[0] == "variant" and d[1].endswith("::Cond")]
+            if cmps and cond and cond[0][2] == "NE" and cmps[-1][2][0] == dest and ("int", running) in cmps[-1][2]:
+                ok = True
+            else:
+                why = "the conditional branch is not `cmp state, #Running; b.ne slow`"
+        else:
+            why = "`%s` is not a test of the state byte" % n2
+    if not ok:
+        r.violation(p + ":wrong-branch", "the arm64 poll must take the slow path exactly when state != Running: %s"
+                    % why, B.file)
+    # caller queues the slow path for the same label
+    LX, LA = layers(F, A)
+    sp = slow_path_for(LA, "safepoint")
+    r.instance("arm64 BaselineAssembler: safepoint slow path queued", sample={"pushes": [(k[1], v, s) for k, v, s in sp]})
+    if not any(same for (_k, _v, same) in sp):
+        r.violation("dora_cannon_compiler::asm::BaselineAssembler::safepoint:no-slow-path-for-label",
+                    "no caller of masm::safepoint queues a SlowPathKind whose start label is the label handed to the "
+                    "poll: the branch target is never bound to the safepoint call", F_A64)
+    # who emits the poll in the aarch64 build
+    from callgraph import CallGraph
+    cg = CallGraph(A, libs=["dora_cannon_compiler"], bins=[])
+    cgn = [q for q in cg.bodies if "CannonCodeGen" in q]
+    entry = [q for q in cgn if q.endswith("::generate")]
+    loopers = [q for q in cgn if q.endswith("visit_jump_loop") or q.endswith("emit_jump_loop")
+               or q.endswith("visit_loop_start")]
+    if r.anchor("CannonCodeGen::generate (aarch64 build)", entry):
+        r.instance("aarch64: generate→safepoint")
+        if p not in cg.reachable_from(entry):
+            r.violation("CannonCodeGen::generate:no-safepoint-poll:aarch64",
+                        "function code generation never reaches the arm64 poll", entry[0])
+        lp = [q for q in loopers if p in cg.reachable_from([q])]
+        r.instance("aarch64: loop-backedge→safepoint", sample={"emitters": lp})
+        if not lp:
+            r.violation("CannonCodeGen:loop-without-poll:aarch64", "no loop back-edge handler reaches the arm64 poll",
+                        "codegen.rs")
+
+
+# --------------------------------------------------------------------------- C13 on arm64
+def rule_stack_limit_arm64(chk, F, A):
+    r = _rule(chk, "C13.R1", "the prologue checks the stack limit",
+              "arm64: masm::arm64 check_stack_limit loads the word at ThreadLocalData::stack_limit_offset() off "
+              "REG_THREAD, compares SP with it in full width with an unsigned condition and branches to the overflow "
+              "label, for which the caller queues the stack-overflow slow path")
+    insns = A64Insns(A)
+    ca = A.crate("dora_cannon_compiler")
+    p = MASM_A64 + "check_stack_limit"
+    mb = ca.mir.get(p)
+    if not r.anchor("arm64 MacroAssembler::check_stack_limit", mb):
+        return
+    B = cfg.Body(mb)
+    defs = cfg.simple_defs(B)
+    ac = asm_calls(B)
+    lim_size = field_size(A, "dora_runtime", "threads::ThreadLocalData", "stack_limit")
+    r.anchor("ThreadLocalData.stack_limit size", lim_size)
+    loads = []
+    for (x, nm) in ac:
+        m = insns.mem(nm)
+        if m and (m["kind"].endswith("load") or m["kind"] == "ldar"):
+            loads.append((x, nm, m, [desc(B, a, defs) for a in x.args[1:]]))
+    st = [l for l in loads if any(mentions(d, calls_fn("ThreadLocalData::stack_limit_offset")) for d in l[3])]
+    r.instance(p + ":loads-stack-limit", sample={"loads": [l[1] for l in loads], "limit_bytes": lim_size})
+    if not st:
+        r.violation(p + ":not-stack-limit-offset",
+                    "the arm64 stack check does not load ThreadLocalData::stack_limit_offset(): SP is compared with "
+                    "some other word, so deep recursion runs off the stack instead of trapping", B.file)
+        return
+    x, nm, m, ds = st[0]
+    if not any(mentions(d, is_named("REG_THREAD")) for d in ds):
+        r.violation(p + ":not-thread-register", "the stack limit is not addressed off REG_THREAD", x.where())
+    r.instance(p + ":full-width-load")
+    if lim_size is not None and m["bits"] != lim_size * 8:
+        r.violation(p + ":%s:narrow-load" % nm, "`%s` loads %d bits of the %d-byte stack limit" % (
+            nm, m["bits"], lim_size), x.where())
+    limit_reg = ds[0] if ds else None
+    # registers derived from SP by an earlier instruction (mov tmp, sp)
+    sp_like = [("named", "REG_SP")]
+    for (y, n2) in ac:
+        d2 = [desc(B, a, defs) for a in y.args[1:]]
+        if len(d2) >= 2 and ("named", "REG_SP") in d2[1:] and d2[0] != ("named", "REG_SP") and not insns.mem(n2):
+            sp_like.append(d2[0])
+    cmps = []
+    for (y, n2) in ac:
+        if mnemonic(n2) not in ("cmp", "subs"):
+            continue
+        d2 = [desc(B, a, defs) for a in y.args[1:]]
+        regs = [d for d in d2 if d[0] in ("named", "call")]
+        if limit_reg in regs and any(s in regs for s in sp_like) and B.dominates(x.block, y.block):
+            cmps.append((y, n2, d2))
+    r.instance(p + ":compares-sp-with-limit", sample={"compares": [c[1] for c in cmps]})
+    if not cmps:
+        r.violation(p + ":no-sp-compare", "no compare of SP (or a copy of it) with the loaded limit", B.file)
+        return
+    y, n2, d2 = cmps[0]
+    w = insns.width(n2)
+    if w != 64:
+        r.violation(p + ":%s:narrow-compare" % n2, "`%s` compares %s bits of two addresses" % (n2, w), y.where())
+    # ISA fact (one line): register 31 is SP only in the extended-register and immediate forms; in the shifted-
+    # register form of cmp/subs it encodes XZR, so `cmp sp, x` would silently compare zero
+    if ("named", "REG_SP") in d2 and "_ext" not in n2 and "_imm" not in n2:
+        r.violation(p + ":%s:sp-in-shifted-register-form" % n2,
+                    "`%s` is a shifted-register form: register 31 means XZR there, so the limit is compared with 0 "
+                    "instead of SP and the check never fires" % n2, y.where())
+    sp_first = d2[0] in sp_like
+    brs = [(z, n3, [desc(B, a, defs) for a in z.args[1:]]) for (z, n3) in ac if B.dominates(y.block, z.block)]
+    brs = [b for b in brs if ("param", 2) in b[2]]
+    r.instance(p + ":branch-to-overflow-label", sample={"branches": [b[1] for b in brs], "sp_is_first_operand": sp_first})
+    ok = False
+    why = "no branch to the overflow label after the compare"
+    for (z, n3, d3) in brs:
+        cond = [d for d in d3 if d[0] == "variant" and d[1].endswith("::Cond")]
+        if mnemonic(n3) != "bc" or not cond:
+            why = "`%s` is not a conditional branch on the compare" % n3
+            continue
+        c = cond[0][2]
+        good = {"CC", "LO", "LS"} if sp_first else {"HI", "HS", "CS"}
+        if c in good and B.postdominates(z.block, 0):
+            ok = True
+        elif c in ("LT", "LE", "MI", "GT", "GE", "PL"):
+            why = "Cond::%s is a signed condition: addresses in the upper half of the address space compare wrongly" % c
+        else:
+            why = "Cond::%s does not mean 'SP below the limit' for this operand order" % c
+    if not ok:
+        r.violation(p + ":wrong-branch", "the arm64 stack check must branch to the overflow label exactly when SP is "
+                                         "below the limit (unsigned): %s" % why, B.file)
+    LX, LA = layers(F, A)
+    sp = slow_path_for(LA, "check_stack_limit")
+    r.instance("arm64 BaselineAssembler: stack-overflow slow path queued",
+               sample={"pushes": [(k[1], v, s) for k, v, s in sp]})
+    if not any(same for (_k, _v, same) in sp):
+        r.violation("dora_cannon_compiler::asm::BaselineAssembler::check_stack_limit:no-slow-path-for-label",
+                    "no caller of masm::check_stack_limit queues a SlowPathKind whose start label is the overflow "
+                    "label", F_A64)
+    from callgraph import CallGraph
+    cg = CallGraph(A, libs=["dora_cannon_compiler"], bins=[])
+    esc = [q for q in cg.bodies if q.endswith("CannonCodeGen::<'a, 'i>::emit_stack_limit_check")]
+    if r.anchor("CannonCodeGen::emit_stack_limit_check (aarch64 build)", esc):
+        r.instance("aarch64: emit_stack_limit_check→masm")
+        if p not in cg.reachable_from(esc):
+            r.violation(esc[0] + ":no-masm-check:aarch64", "does not reach the arm64 check_stack_limit", esc[0])
+
+
+def rule_array_size_arm64(chk, F, A):
+    r = _rule(chk, "C13.R6", "the baseline compiler computes an array's allocation size in full register width",
+              "arm64: masm::arm64 determine_array_size emits only 64-bit instruction forms and passes only "
+              "pointer-width machine modes to the helpers it uses")
+    insns = A64Insns(A)
+    ca = A.crate("dora_cannon_compiler")
+    p = MASM_A64 + "determine_array_size"
+    mb = ca.mir.get(p)
+    if not r.anchor("masm::arm64 determine_array_size", mb):
+        return
+    users = [q for q, b in ca.mir.items() if "CannonCodeGen" in q and any(
+        (x.name or "").endswith("determine_array_size") for x in cfg.Body(b).calls)]
+    r.anchor("aarch64 code generator functions using determine_array_size", users)
+    WIDE = {"Ptr", "Int64", "IntPtr"}
+    B = cfg.Body(mb)
+    defs = cfg.simple_defs(B)
+    n = 0
+    for x in B.calls:
+        nm = x.name or ""
+        if nm.startswith(A64):
+            ins = nm[len(A64):]
+            w = insns.width(ins)
+            # ISA fact (one line): the widening multiplies (SMULL/UMULL/SMADDL/…) read 32-bit sources whatever `sf` says
+            if re.match(r"^[su]m(ul|add|sub|negl?)l$", mnemonic(ins)) or mnemonic(ins) in ("smnegl", "umnegl"):
+                w = 32
+            n += 1
+            r.instance("%s:%s" % (p, ins), sample={"insn": ins, "bits": w})
+            if w is None:
+                r.violation("%s:%s:width-unknown" % (p, ins),
+                            "cannot determine the operand width of `%s` (no `sf` literal, no _w sibling)" % ins, x.where())
+            elif w != 64:
+                r.violation("%s:%s:narrow-instruction-in-size-computation" % (p, ins),
+                            "`%s` is a %d-bit instruction form: length * element_size (+ header) is truncated to 32 "
+                            "bits, so an array of 2^28 16-byte elements gets a size of a few bytes and is granted "
+                            "instead of ending in the out-of-memory trap" % (ins, w), x.where())
+            continue
+        for a in x.args:
+            if a[0] not in ("c", "m"):
+                continue
+            d = desc(B, a, defs)
+            if d[0] == "variant" and d[1].endswith("MachineMode"):
+                n += 1
+                r.instance("%s:%s(MachineMode::%s)" % (p, last(nm), d[2]), sample={"helper": nm, "mode": d[2]})
+                if d[2] not in WIDE:
+                    r.violation("%s:%s(MachineMode::%s):narrow-mode-in-size-computation" % (p, last(nm), d[2]),
+                                "the size computation calls `%s` with MachineMode::%s: the arithmetic is done in fewer "
+                                "than 64 bits and wraps for requests of 4 GiB and more" % (last(nm), d[2]), x.where())
+    r.floor("arm64 instructions/mode arguments in the size routine", n, 6)
+
+
+def run_c13(chk, F):
+    r0 = _rule(chk, "C13.R1", "the prologue checks the stack limit")
+    A = _a64(F, r0)
+    if A is None:
+        return
+    rule_stack_limit_arm64(chk, F, A)
+    rule_array_size_arm64(chk, F, A)
+
+
+# --------------------------------------------------------------------------- C09.R3 on arm64
+def run_c09(chk, F):
+    r = _rule(chk, "C09.R3", "atomic read-modify-write emitters are indivisible and ordered",
+              "arm64: every *_synchronized emitter of masm::arm64 uses only acquire+release forms on the atomic "
+              "address — LSE instructions with the `al` suffix, or an exclusive loop ldaxr*/stlxr* whose status "
+              "register is tested by a backward cbnz to a label bound before the load — loads are ldar*, stores "
+              "stlr*, and the access width matches the routine's intN")
+    A = _a64(F, r)
+    if A is None:
+        return
+    insns = A64Insns(A)
+    ca = A.crate("dora_cannon_compiler")
+    fi = {f["path"]: f for f in A.crate("dora_asm").items["fns"]}
+    families = {k: sorted(n for n in insns.names if (insns.mem(n) or {}).get("kind") == k)
+                for k in ("lse", "ldx", "stx", "ldar", "stlr")}
+    r.floor("dora_asm::arm64 LSE instruction methods", len(families["lse"]), 12)
+    r.floor("dora_asm::arm64 exclusive load/store methods", len(families["ldx"]) + len(families["stx"]), 8)
+    r.floor("dora_asm::arm64 load-acquire/store-release methods", len(families["ldar"]) + len(families["stlr"]), 6)
+    n_rmw = n_ls = n_loops = 0
+    for p in sorted(ca.mir):
+        nm = last(p)
+        if not p.startswith(MASM_A64) or not nm.endswith("_synchronized"):
+            continue
+        B = cfg.Body(ca.mir[p])
+        defs = cfg.simple_defs(B)
+        kind = "load" if nm.startswith("load_") else "store" if nm.startswith("store_") else "rmw"
+        mb = re.search(r"int(\d+)", nm)
+        want_bits = int(mb.group(1)) if mb else None
+        params = [B.local_name(i) for i in range(1, B.argc + 1)]
+        addr_params = [i for i in range(1, B.argc + 1) if (B.local_name(i) or "") in ("address", "addr")]
+        ac = asm_calls(B)
+        if not r.anchor("%s: parameter named address/addr" % nm, addr_params):
+            continue
+        mems = []
+        for (x, n2) in ac:
+            m = insns.mem(n2)
+            if m:
+                ps = (fi.get(A64 + n2) or {}).get("params") or []
+                ds = [desc(B, a, defs) for a in x.args]
+                ai = [i for i, q in enumerate(ps) if q in ("address", "addr", "rn")]
+                addr = ds[ai[0]] if ai and ai[0] < len(ds) else None
+                mems.append((x, n2, m, ds, addr, ps))
+        if kind == "rmw":
+            n_rmw += 1
+        else:
+            n_ls += 1
+        r.instance("masm::arm64::%s" % nm, sample={"routine": nm, "kind": kind, "emits": [m[1] for m in mems]})
+        if not mems:
+            r.violation("%s:no-atomic-instruction" % p, "%s emits no memory instruction at all" % nm, B.file)
+            continue
+        for (x, n2, m, ds, addr, ps) in mems:
+            key = "%s:%s" % (p, n2)
+            if addr is None or addr[0] != "param" or addr[1] not in addr_params:
+                r.violation(key + ":not-the-atomic-address",
+                            "`%s` does not address the routine's `address` operand" % n2, x.where())
+            if want_bits is not None and m["bits"] != want_bits:
+                r.violation(key + ":width-%d-in-int%d-routine" % (m["bits"], want_bits),
+                            "`%s` accesses %d bits in %s: the other half of the value is %s" % (
+                                n2, m["bits"], nm, "not transferred atomically / not at all" if m["bits"] < want_bits
+                                else "memory next to the variable"), x.where())
+            if kind == "load":
+                if m["kind"] != "ldar":
+                    r.violation(key + ":load-not-acquire", "a synchronized load must be a load-acquire (ldar*), `%s` "
+                                                           "is %s" % (n2, m["kind"]), x.where())
+            elif kind == "store":
+                if m["kind"] != "stlr":
+                    r.violation(key + ":store-not-release", "a synchronized store must be a store-release (stlr*), "
+                                                            "`%s` is %s" % (n2, m["kind"]), x.where())
+            else:
+                if m["kind"] == "lse":
+                    if not (m["acq"] and m["rel"]):
+                        r.violation(key + ":lse-without-acquire-release",
+                                    "`%s` is the %s form of %s: the read-modify-write is atomic but not ordered with "
+                                    "the surrounding accesses (a lock built on it does not protect its critical "
+                                    "section); the `al` form is required" % (
+                                        n2, "relaxed" if not (m["acq"] or m["rel"]) else
+                                        "acquire-only" if m["acq"] else "release-only", m["base"]), x.where())
+                elif m["kind"] == "ldx":
+                    if not m["acq"]:
+                        r.violation(key + ":exclusive-load-without-acquire",
+                                    "`%s` is the plain exclusive load; ldaxr* is required" % n2, x.where())
+                elif m["kind"] == "stx":
+                    if not m["rel"]:
+                        r.violation(key + ":exclusive-store-without-release",
+                                    "`%s` is the plain exclusive store; stlxr* is required" % n2, x.where())
+                else:
+                    r.violation(key + ":plain-access-in-atomic-routine",
+                                "`%s` is an ordinary %s inside %s: the access is neither atomic with the rest of the "
+                                "operation nor ordered" % (n2, m["kind"], nm), x.where())
+        if kind != "rmw":
+            continue
+        # exclusive loops: every store-exclusive is paired with a dominating load-exclusive on the same address, its
+        # status register is tested by a cbnz that branches back to a label bound before the load
+        stxs = [mm for mm in mems if mm[2]["kind"] == "stx"]
+        ldxs = [mm for mm in mems if mm[2]["kind"] == "ldx"]
+        lses = [mm for mm in mems if mm[2]["kind"] == "lse"]
+        if not lses and not stxs:
+            r.violation("%s:no-read-modify-write" % p, "%s contains neither an LSE instruction nor a store-exclusive"
+                        % nm, B.file)
+        if ldxs and not stxs:
+            r.violation("%s:load-exclusive-without-store-exclusive" % p, "the exclusive monitor is never consumed", B.file)
+        for (x, n2, m, ds, addr, ps) in stxs:
+            n_loops += 1
+            key = "%s:%s" % (p, n2)
+            si = ps.index("status") if "status" in ps else 1
+            status = ds[si] if si < len(ds) else None
+            lds = [l for l in ldxs if l[4] == addr and B.dominates(l[0].block, x.block)]
+            r.instance(key + ":exclusive-loop", sample={"store": n2, "loads": [l[1] for l in lds]})
+            if not lds:
+                r.violation(key + ":no-dominating-load-exclusive",
+                            "`%s` is not preceded on every path by a load-exclusive of the same address: the store "
+                            "has no monitor to succeed against" % n2, x.where())
+                continue
+            back = None
+            why = "no cbnz on the status register after the store-exclusive"
+            for (y, n3) in ac:
+                if mnemonic(n3) not in ("cbnz", "cbz", "tbnz", "tbz"):
+                    continue
+                d3 = [desc(B, a, defs) for a in y.args[1:]]
+                if not d3 or d3[0] != status or not B.dominates(x.block, y.block):
+                    continue
+                if mnemonic(n3) != "cbnz":
+                    why = "`%s` on the status register: the retry must be taken when the store FAILED (status != 0)" % n3
+                    continue
+                lbl = d3[-1]
+                if not (lbl[0] == "call" and last(lbl[1]) == "create_and_bind_label"):
+                    why = "the retry branch does not target a label bound with create_and_bind_label (a forward label " \
+                          "would skip the retry)"
+                    continue
+                bind_block = [c.block for c in B.calls if c.dest[0] == lbl[3] and last(c.name or "") == "create_and_bind_label"]
+                if bind_block and all(B.dominates(bind_block[0], l[0].block) for l in lds) and B.postdominates(y.block, x.block):
+                    back = (y, n3)
+                else:
+                    why = "the retry label is not bound before the load-exclusive (the loop would not reload), or the " \
+                          "status test can be skipped"
+            if back is None:
+                r.violation(key + ":status-not-retried",
+                            "the store-exclusive's status is not tested by a backward branch to the loop head: %s; a "
+                            "failed store (another core wrote in between) is silently dropped" % why, x.where())
+    r.floor("arm64 masm RMW routines", n_rmw, 6)
+    r.floor("arm64 masm synchronized load/store routines", n_ls, 6)
+    r.floor("arm64 exclusive loops", n_loops, 6)
+
+
+# --------------------------------------------------------------------------- C10.R7
+def run_c10(chk, F):
+    r = chk.rule("C10.R7", "the MacroAssembler methods that reach a call instruction (x64 call*, arm64 bl*/blr*) and "
+                           "those that record a stack map are the same, by name, in the x86_64 and the aarch64 build, "
+                           "so the call ⇒ stack-map pairing decided on the arch-independent callers covers the same "
+                           "primitives on both targets; in the aarch64 build only masm and the two trampoline "
+                           "generators emit bl*/blr*, and the runtime-entry trampoline records its stack map at offset 0")
+    A = _a64(F, r)
+    if A is None:
+        return
+    calls_a = a64_call_insns(A)
+    calls_x = x64_call_insns(F)
+    if not (r.anchor("dora_asm::arm64 branch-with-link instruction methods", calls_a)
+            and r.anchor("dora_asm::x64 call instruction methods", calls_x)):
+        return
+    LX, LA, n = parity(r, F, A, ("call-instruction", "stack-map"), observe_one_sided=False, floors=False)
+    prim_x = {k[1] for k, e in LX.effects.items() if k[0] == "masm" and e["call-instruction"]}
+    prim_a = {k[1] for k, e in LA.effects.items() if k[0] == "masm" and e["call-instruction"]}
+    direct_x = {k[1] for k, d in LX.direct.items() if k[0] == "masm" and d["call-instruction"]}
+    direct_a = {k[1] for k, d in LA.direct.items() if k[0] == "masm" and d["call-instruction"]}
+    r.floor("x64 masm methods reaching a call instruction", len(prim_x), 6)
+    r.floor("arm64 masm methods reaching a call instruction", len(prim_a), 6)
+    r.observe("arm64 methods emitting bl*/blr* directly: %s; x64 methods emitting call* directly: %s" % (
+        sorted(direct_a), sorted(direct_x)))
+    for nm in sorted(prim_x | prim_a):
+        r.instance("masm::%s:call-emitting-on-both-targets" % nm, sample={"method": nm, "x64": nm in prim_x,
+                                                                         "arm64": nm in prim_a})
+        if nm in prim_x and nm in prim_a:
+            continue
+        k = ("masm", nm)
+        if k in LX.effects and k in LA.effects:
+            continue        # present on both sides with different effects: reported by the parity comparison above
+        r.violation("masm::%s:call-emitting-on-%s-only" % (nm, "x64" if nm in prim_x else "arm64"),
+                    "%s emits a call on %s and does not exist on the other target: the stack-map pairing rule never "
+                    "sees its call sites there" % (nm, "x64" if nm in prim_x else "arm64"), F_A64)
+    # C10.R1 keys its call-site scan on the methods that emit the x64 call instruction *directly*.  An arm64-specific
+    # method that emits bl*/blr* itself but is not in that set is scanned here, on the aarch64 facts, with R1's criterion
+    def starts_with_stack_map(k, seen=()):
+        """the first layer call of k that records a stack map or emits code records the stack map"""
+        if k in seen or k not in LA.bodies:
+            return False
+        B0 = LA.bodies[k][0]
+        for b in B0._rpo(0):
+            t = B0.blocks[b]["t"]
+            if t[0] != "call":
+                continue
+            ck = layer_key(cfg.callee_name(cfg.callee_of(t[1]["f"])) or "")
+            if ck is None or ck not in LA.effects:
+                continue
+            if ck[0] == "masm" and LA.direct[ck]["stack-map"]:
+                return True
+            if LA.effects[ck]["emits-code"]:
+                return LA.effects[ck]["stack-map"] and starts_with_stack_map(ck, seen + (k,))
+        return False
+
+    def scan(B, start_block):
+        seen = set()
+        st = list(B.succ[start_block])
+        while st:
+            b = st.pop()
+            if b in seen:
+                continue
+            seen.add(b)
+            t = B.blocks[b]["t"]
+            if t[0] == "call":
+                ck = layer_key(cfg.callee_name(cfg.callee_of(t[1]["f"])) or "")
+                if ck is not None and ck in LA.effects:
+                    if (ck[0] == "masm" and LA.direct[ck]["stack-map"]) or starts_with_stack_map(ck):
+                        continue
+                    if LA.effects[ck]["emits-code"]:
+                        return False, "%s emits code before the stack map" % ck[1]
+            if t[0] == "ret":
+                return False, "the function returns without recording a stack map"
+            for s2 in B.succ[b]:
+                if s2 not in seen:
+                    st.append(s2)
+        return True, None
+
+    ccg = A.crate("dora_cannon_compiler")
+    for nm in sorted(direct_a - direct_x):
+        target = LA.paths.get(("masm", nm))
+        nsite = 0
+        for q, mb in sorted(ccg.mir.items()):
+            if q.startswith(CC + "masm::") or "{closure" in q:
+                continue
+            Bq = cfg.Body(mb)
+            for x in Bq.calls:
+                if x.name != target:
+                    continue
+                nsite += 1
+                ok, why = scan(Bq, x.block)
+                r.instance("%s:%s:stack-map-follows" % (q, nm), sample={"fn": q, "primitive": nm, "gcpoint_follows": ok,
+                                                                      "at": x.where()})
+                if not ok:
+                    r.violation("%s:%s:no-stack-map" % (q, nm),
+                                "%s (a call emitter on arm64 that C10.R1 does not key on, because its x64 sibling "
+                                "calls through another primitive): %s" % (nm, why), x.where())
+        r.instance("masm::%s:direct-emitter-on-arm64-only" % nm, nontrivial=bool(nsite),
+                   sample={"method": nm, "call_sites_outside_masm": nsite})
+    # who may emit the raw instructions in the aarch64 build
+    TRAMP = ("dora_compiler::runtime_entry_trampoline::arm64::", "dora_compiler::dora_entry_trampoline::arm64::")
+    n_sites = 0
+    n_tramp = 0
+    for c in A.all_crates(kinds=("lib",)):
+        for p, mb in sorted(c.mir.items()):
+            if not any(b["t"][0] == "call" and cfg.callee_name(cfg.callee_of(b["t"][1]["f"])) in calls_a
+                       for b in mb["blocks"]):
+                continue
+            B = cfg.Body(mb)
+            sites = [x for x in B.calls if x.name in calls_a]
+            if not sites:
+                continue
+            n_sites += len(sites)
+            if p.startswith(CC + "masm::") or p.startswith("dora_asm::"):
+                continue
+            r.instance("%s:emits-%s" % (p, last(sites[0].name)), sample={"fn": p, "insn": last(sites[0].name)})
+            if p.startswith(TRAMP[0]):
+                n_tramp += 1
+                ins = [x for x in B.calls if (x.name or "").endswith("GcPointTable::insert")]
+                ok = False
+                for i in ins:
+                    a = i.args[1] if len(i.args) > 1 else None
+                    if a is not None and a[0] == "k" and a[1].get("v") == 0 and B.postdominates(i.block, 0):
+                        ok = True
+                if not ok:
+                    r.violation(p + ":no-stack-map-at-offset-0",
+                                "the arm64 runtime-entry trampoline calls native code but does not record the stack "
+                                "map at offset 0 on every path", B.file)
+            elif p.startswith(TRAMP[1]):
+                n_tramp += 1
+                r.observe("%s enters managed code with %s: its frame is a Dora-entry frame, handled by the stack "
+                          "walker's own arm (C10.R4), no stack map is looked up for it" % (p, last(sites[0].name)))
+            else:
+                r.violation(p + ":raw-call-instruction",
+                            "%s emits %s outside masm and outside the trampoline generators (no stack-map discipline "
+                            "applies)" % (last(p), last(sites[0].name)), sites[0].where())
+    r.floor("bl*/blr* emission sites in the aarch64 build", n_sites, 7)
+    r.floor("arm64 trampoline generators emitting a call", n_tramp, 2)
+
+
+# --------------------------------------------------------------------------- C14.R6
+LOC = "dora_bytecode::data::Location"
+
+
+def run_c14(chk, F):
+    r = chk.rule("C14.R6", "position recording is the same in the x86_64 and the aarch64 build per MacroAssembler/"
+                           "BaselineAssembler method, and every bailout/trap emitted by an arm64-specific masm method "
+                           "carries that method's own Location parameter")
+    A = _a64(F, r)
+    if A is None:
+        return
+    LX, LA, n = parity(r, F, A, ("position",), observe_one_sided=False, floors=False)
+    # comment tables do not influence behaviour: differences are recorded only
+    for k in sorted(set(LX.effects) & set(LA.effects)):
+        if LX.effects[k]["comment"] != LA.effects[k]["comment"]:
+            r.observe("%s::%s records code comments on one target only" % k)
+    sinks = LA.sinks()
+    r.floor("arm64 trap/bailout emitters", len(sinks), 4)
+    sites = 0
+    for k, bs in sorted(LA.bodies.items()):
+        p = LA.paths.get(k, "")
+        if not p.startswith(MASM_A64):
+            continue
+        for B in bs:
+            defs = None
+            for x in B.calls:
+                ck = layer_key(x.name or "")
+                it = LA.items.get(x.name or "")
+                if ck not in sinks or not it:
+                    continue
+                for i, ty in enumerate(it["inputs"]):
+                    if ty != LOC or i >= len(x.args):
+                        continue
+                    if defs is None:
+                        defs = cfg.simple_defs(B)
+                    o = cfg.origin(B, x.args[i], defs)
+                    sites += 1
+                    ok = o[0] == "param" and not o[2] and B.local_ty(o[1]) == LOC
+                    r.instance("%s→%s" % (p, last(x.name)), sample={"fn": p, "emitter": last(x.name), "location": str(o[:2]),
+                                                                   "at": x.where()})
+                    if not ok:
+                        r.violation("%s:%s:location-not-the-parameter" % (p, last(x.name)),
+                                    "the arm64 %s hands %s a position that is not its own Location parameter (%s): the "
+                                    "trap is reported at a wrong source line on arm64 only" % (k[1], last(x.name), o[0]),
+                                    x.where())
+    r.floor("arm64 bailout sites carrying a Location", sites, 10)
+    # the x64 side has the same number of Location-carrying bailout sites per shared method
+    for k in sorted(set(LX.bodies) & set(LA.bodies)):
+        if not LA.paths.get(k, "").startswith(MASM_A64):
+            continue
+        ca_ = sum(1 for B in LA.bodies[k] for x in B.calls if layer_key(x.name or "") in sinks)
+        cx_ = sum(1 for B in LX.bodies[k] for x in B.calls if layer_key(x.name or "") in LX.sinks())
+        if ca_ or cx_:
+            r.instance("masm::%s:bailout-sites" % k[1], sample={"method": k[1], "x64": cx_, "arm64": ca_})
